@@ -189,6 +189,14 @@ def quantileK (q : V) (vals : List V) : V :=
     let hi := sorted.getD (toInt upperIndex).toNat nan
     add (mul lo (sub one weight)) (mul hi weight)
 
+/-- the running mean of `avg` (promql/engine.go, `case parser.AVG`): the count goes up, then the
+mean moves towards `v` unless it is an infinity that `v` cannot change -/
+def meanUpd (acc : V × V) (v : V) : V × V :=
+  let cnt := add acc.2 one
+  if isInf acc.1 && (isInf v && (gt acc.1 zero == gt v zero)) then (acc.1, cnt)
+  else if isInf acc.1 && (!isInf v && !isNaN v) then (acc.1, cnt)
+  else (add acc.1 (sub (div v cnt) (div acc.1 cnt)), cnt)
+
 /-- reduce the member values of one group (in input order); `vals` is non-empty -/
 def aggReduce (op : String) (param : V) (vals : List V) : V :=
   match vals with
@@ -201,12 +209,7 @@ def aggReduce (op : String) (param : V) (vals : List V) : V :=
     | "max" => rest.foldl (fun m v => if lt m v || isNaN m then v else m) v0
     | "min" => rest.foldl (fun m v => if gt m v || isNaN m then v else m) v0
     | "avg" =>
-      (rest.foldl (fun (acc : V × V) v =>
-        let (mean, cnt) := acc
-        let cnt := add cnt one
-        if isInf mean && (isInf v && (gt mean zero == gt v zero)) then (mean, cnt)
-        else if isInf mean && (!isInf v && !isNaN v) then (mean, cnt)
-        else (add mean (sub (div v cnt) (div mean cnt)), cnt)) (v0, one)).1
+      (rest.foldl meanUpd (v0, one)).1
     | "stdvar" | "stddev" =>
       let (cnt, _, value) := rest.foldl (fun (acc : V × V × V) v =>
         let (cnt, mean, value) := acc
